@@ -176,6 +176,7 @@ func RunComp(t *testing.T, in *RunInput) {
 			synctest.Test(t, func(t *testing.T) {
 				time.Sleep(123456789 * time.Nanosecond)
 				goruntime.SimBubbleGlobals(true)
+				goruntime.SimSetBias(1)
 				k = NewKernel(tape)
 				k.resolver = compResolver
 				k.keepLog = in.KeepLog
